@@ -6,6 +6,7 @@ import z3
 
 from pvx import loopcut
 from pvx.harness import Ob
+from pvx.npproxy import alias_update as _alias_update
 from pvx.loader import load
 from pvx.sym import Concretization
 from pvx.zdomain import ZCtx, ZSym, _z, zmin, zmax, OPAQUE, Stop, ObligationFailed, explore_z
@@ -209,12 +210,12 @@ def scenario(py, code, mode, with_inc, equal_index=True):
             return I_()
     ns = dict(F.__dict__)
     hooks.kalman = sched.KalmanStub()
-    ns.update(__pvx=hooks, np=sched.ZNp(w), pd=OPAQUE, kalman=hooks.kalman, transform=OPAQUE, earth=OPAQUE, Rotation=OPAQUE,
+    _alias_update(ns, F.__dict__, dict(__pvx=hooks, np=sched.ZNp(w), pd=OPAQUE, kalman=hooks.kalman, transform=OPAQUE, earth=OPAQUE, Rotation=OPAQUE,
               util=cap, inertial_sensor=InertialNS, InsErrorModel=lambda wa=True: OPAQUE,
               _initialize_covariance=lambda *a, **k: OPAQUE,
               _compute_error_propagation_matrices=lambda *a, **k: (OPAQUE, OPAQUE),
               _compute_feedforward_result=lambda *a, **k: (OPAQUE,) * 6,
-              _interpolate_pva=lambda *a, **k: OPAQUE, min=zmin, max=zmax, len=sched.zlen)
+              _interpolate_pva=lambda *a, **k: OPAQUE, min=zmin, max=zmax, len=sched.zlen))
     fn, _ = loopcut.instantiate(F.run_feedforward_filter, code, ns)
     traj_nom = sched.TrajIndexed(w)
     traj = sched.TrajIndexed(w if equal_index else World(c, 0))
